@@ -43,7 +43,7 @@ RULES = {
 }
 PROBES = ["in_requests", "data_packets", "nrdy", "erdy", "zlp", "short_packet", "full_packet", "retry_requested",
           "retry_same_sequence_no_rty", "ack_without_request", "ack_and_request", "foreign_endpoint_ack", "tx_ready_stall",
-          "request_before_data", "second_packet_after_ack", "transfers_completed"]
+          "request_before_data", "second_packet_after_ack", "transfers_completed", "sequence_wrap_31_to_0"]
 META = {
     "components_real": ["luna.gateware.usb.usb3.endpoints.stream.SuperSpeedStreamInEndpoint"],
     "components_stubbed": ["stream producer", "USB3 host at the TransactionPacketReceiver interface (handshakes_in)",
@@ -99,6 +99,10 @@ def gen(rng, tier, index):
         # nominal-path runs: an endless, gap-free stream that is always ahead of the host, transmitter always ready, the
         # host stops while at least two packets are still buffered and does not drain (retries are still exercised)
         npk = rng.randint(4, 9)
+        if rng.random() < 0.35:
+            # long nominal runs: more than 32 packets in a row, so the 5-bit sequence number wraps (31 -> 0) at least once
+            npk = rng.randint(35, 46)
+            mps = cfg["mps"] = 16
         cfg["transfers"] = [{"data": bytes(rng.getrandbits(8) for _ in range(mps * npk)).hex(), "last": False}]
         cfg.update({"producer_start": 0, "producer_gaps": [0], "transfer_gap": 0, "tx_ready": [1]})
         first_delay = mps // 4 * 2 + 12
@@ -494,6 +498,8 @@ class _World:
             # accept the packet
             self.awaiting_retry = False
             self.expected_seq = (self.expected_seq + 1) & 31
+            if self.expected_seq == 0:
+                pr["sequence_wrap_31_to_0"] += 1
             self.delivered += 1
             self.drain_left = DRAIN_REQUESTS
             if self.delivered == 2:
